@@ -610,3 +610,100 @@ M c18_copy_file_added_with_basis C18 'C18.5b' 'new file reported as changed' src
 '            trace!("New file");
             let r = IndexEntry::metadata_from(source_entry);
             Some(EntryChange::changed(&r, source_entry))'
+
+# ---- rules added after the seeded changes
+M c01_restore_addrs_reversed C01 'C01.7' 'restore writes the blocks of a file in reverse order' src/restore.rs \
+'    for addr in &source_entry.addrs {' '    for addr in source_entry.addrs.iter().rev() {'
+M c01_store_drops_second_block C01 'C01.8' 'store_file_content records only blocks that are full' src/backup.rs \
+'        addresses.push(Address {
+            hash,
+            start: 0,
+            len,
+        });' \
+'        if len as usize == max_block_size || addresses.is_empty() {
+            addresses.push(Address {
+                hash,
+                start: 0,
+                len,
+            });
+        }'
+M c01_finished_overwritten C01 'C01.6b' 'finished assigned instead of extended' src/backup.rs \
+'        self.finished
+            .extend(queue.into_iter().map(|qf| IndexEntry {' \
+'        self.finished = Vec::from_iter(queue.into_iter().map(|qf| IndexEntry {'
+M c02_cache_before_verify C02 'C02.3' 'block content cached before its hash is verified' src/blockdir.rs \
+'        let actual_hash = BlockHash::hash_bytes(&decompressed_bytes);
+        if actual_hash != *hash {
+            return Err(Error::BlockCorrupt { hash: hash.clone() });
+        }
+        self.cache
+            .write()
+            .expect("Lock cache")
+            .put(hash.clone(), decompressed_bytes.clone());' \
+'        self.cache
+            .write()
+            .expect("Lock cache")
+            .put(hash.clone(), decompressed_bytes.clone());
+        let actual_hash = BlockHash::hash_bytes(&decompressed_bytes);
+        if actual_hash != *hash {
+            return Err(Error::BlockCorrupt { hash: hash.clone() });
+        }'
+M c05_refs_first_address_only C05 'C05.4c' 'only the first address of each entry counts as referenced' src/archive.rs \
+'                for addr in hunk.into_iter().flat_map(|entry| entry.addrs) {' \
+'                for addr in hunk.into_iter().flat_map(|entry| entry.addrs.into_iter().take(1)) {'
+M c05_release_before_block_deletion C05,C06 'C05.7c|C06.1g' 'gc lock released before the blocks are deleted' src/archive.rs \
+'            let task = monitor.start_task("Delete blocks".to_string());
+            task.set_total(unref_count);
+            let mut error_count = 0;
+            for block_hash in unref {
+                // TODO: Parallelize
+                task.increment(1);
+                error_count += block_dir.delete_block(block_hash).await.is_err() as usize;
+            }
+            stats.deletion_errors += error_count;
+            stats.deleted_block_count += unref_count - error_count;
+        }
+        gc_lock.release().await?;' \
+'        }
+        gc_lock.release().await?;
+        if !options.dry_run {
+            let task = monitor.start_task("Delete blocks".to_string());
+            task.set_total(unref_count);
+            let mut error_count = 0;
+            for block_hash in unref {
+                // TODO: Parallelize
+                task.increment(1);
+                error_count += block_dir.delete_block(block_hash).await.is_err() as usize;
+            }
+            stats.deletion_errors += error_count;
+            stats.deleted_block_count += unref_count - error_count;
+        }'
+M c07_block_cleanup_remove C07 'C07.6b|C07.6c' 'failed block write cleans up with remove_file' src/blockdir.rs \
+'                warn!(?err, ?hash, "Error writing block");
+                return Err(err.into());' \
+'                warn!(?err, ?hash, "Error writing block");
+                let _ = self.transport.remove_file(&relpath).await;
+                return Err(err.into());'
+M c10_alloc_by_decoded_size C10 'alloc' 'buffer pre-allocated from decoded sizes' src/restore.rs \
+'    for addr in &source_entry.addrs {' \
+'    let mut _scratch: Vec<u8> = Vec::with_capacity(source_entry.size().unwrap_or_default() as usize);
+    for addr in &source_entry.addrs {'
+M c11_cmp_flat_dir C11 'C11.1d' 'comparator compares the directory part as one string' src/apath.rs \
+'        let Apath(a) = self;
+        let Apath(b) = b;' \
+'        let Apath(a) = self;
+        let Apath(b) = b;
+        if let (Some((ad, at)), Some((bd, bt))) = (a.rsplit_once('"'"'/'"'"'), b.rsplit_once('"'"'/'"'"')) {
+            if ad != bd && ad.len() == bd.len() {
+                return ad.cmp(bd).then_with(|| at.cmp(bt));
+            }
+        }'
+M c12_stitch_extra_skip C12,C15 'C12.2b|C15.1d' 'stitcher skips entries by a textual test' src/index/stitch.rs \
+'                        if !self.subtree.is_prefix_of(&entry.apath)' \
+'                        if entry.apath.ends_with("~") {
+                            continue;
+                        }
+                        if !self.subtree.is_prefix_of(&entry.apath)'
+M c14_reuse_extra_condition C14 'C14.2d' 'reuse additionally requires a small entry' src/backup.rs \
+'                    .all(|addr| self.block_dir.contains(&addr.hash))' \
+'                    .all(|addr| self.block_dir.contains(&addr.hash) && addr.len < (1 << 40))'
